@@ -40,21 +40,23 @@ def nprocess (sub : NSub) (sc : Script) (cfg : NCfg) (scope : Scope) (x : Ctx) (
 /-- all non-empty prefixes of a path (`while elems: done.add(join(elems)); elems.pop()`) -/
 def prefixesOf (p : SPath) : List SPath := (List.range p.length).map fun i => p.take (i + 1)
 
-/-- `for state_path in ordered_states:` of `trigger_nested` -/
+/-- `for state_path in ordered_states:` of `trigger_nested`; returns the final `done` set.  A state which an
+earlier transition of this event has exited (`event_data.exited_states`, global names) gets no turn. -/
 def tnLoop (sub : NSub) (sc : Script) (cfg : NCfg) (scope : Scope) (x : Ctx) (ev : Nat) (ts : List NTrans) :
-    List SPath → List SPath → NSt → NR Unit
-  | [], _, s => .ok () s
+    List SPath → List SPath → NSt → NR (List SPath)
+  | [], done, s => .ok done s
   | p :: ps, done, s =>
     let cands := ncandidates scope.pre ev ts p
-    -- if state_name not in done and state_name in self.transitions:
-    if p ∈ done ∨ cands.isEmpty then tnLoop sub sc cfg scope x ev ts ps done s else
+    -- if state_name not in done and state_name in self.transitions and join(scope + state_path) not in exited:
+    if p ∈ done ∨ cands.isEmpty ∨ (scope.pre ++ p) ∈ s.exited then tnLoop sub sc cfg scope x ev ts ps done s else
     match getState cfg.root scope p with
     | none => .err .valueError s
     | some _ =>
       (nprocess sub sc cfg scope x cands s).bind fun _ s' =>
         tnLoop sub sc cfg scope x ev ts ps (if s'.result = some true then done ++ prefixesOf p else done) s'
 
-/-- `NestedEvent.trigger_nested`; returns `event_data.result` -/
+/-- `NestedEvent.trigger_nested`; returns `event_data.result` — set to True when some transition of this call
+executed (`if done:`), whatever a later blocked state left there -/
 def triggerNested (sub : NSub) (sc : Script) (cfg : NCfg) (scope : Scope) (x : Ctx) (ev : Nat) (ts : List NTrans)
     (s : NSt) : NR (Option Bool) :=
   -- state_tree = reduce(dict.get, machine.get_global_name(join=False), build_state_tree(model.state))
@@ -64,38 +66,39 @@ def triggerNested (sub : NSub) (sc : Script) (cfg : NCfg) (scope : Scope) (x : C
   | .ok (some sub') =>
     match resolveOrder sub' with
     | none => .oof
-    | some order => (tnLoop sub sc cfg scope x ev ts order [] s).bind fun _ s' => .ok s'.result s'
+    | some order =>
+      (tnLoop sub sc cfg scope x ev ts order [] s).bind fun done s' =>
+        if done.isEmpty then .ok s'.result s' else .ok (some true) { s' with result := some true }
 
 /-- `None if not res or all(v is None …) else any(res.values())` -/
 def summarize (res : List (Nat × Bool)) : Option Bool :=
   if res.isEmpty then none else some (res.any (·.2))
 
 /-- `HierarchicalMachine._trigger_event_nested`: the `for key, value in _state_tree.items():` loop over the
-(stale) snapshot `tree`, with the `res` dictionary as accumulator; the recursive call for `value` starts with
-an empty dictionary and is summarised. -/
+(stale) snapshot `tree`, with the `res` dictionary and the `offered` flag as accumulators; the recursive call for
+`value` starts afresh and is summarised.  The event is offered to a scope at most once per call. -/
 def ten (sub : NSub) (sc : Script) (cfg : NCfg) (x : Ctx) (ev : Nat) :
-    Scope → Forest → List (Nat × Bool) → NSt → NR (List (Nat × Bool))
-  | _, .nil, res, s => .ok res s
-  | scope, .cons key value rest, res, s =>
+    Scope → Forest → List (Nat × Bool) → Bool → NSt → NR (List (Nat × Bool))
+  | _, .nil, res, _, s => .ok res s
+  | scope, .cons key value rest, res, offered, s =>
     (if value.isEmpty then (.ok res s : NR (List (Nat × Bool))) else
       match scope.enter key with
       | none => .err .other s                          -- `with self(key)`: KeyError
       | some inner =>
-        (ten sub sc cfg x ev inner value [] s).bind fun r s' =>
+        (ten sub sc cfg x ev inner value [] false s).bind fun r s' =>
           .ok (match summarize r with
             | some b => aset key b res
             | none => res) s').bind fun res1 s1 =>
-    -- if res.get(key, False) is False and trigger in self.events:
-    (if (alookup key res1).getD false = false then
-        match alookup ev scope.events with
-        | some ts =>
-          (triggerNested sub sc cfg scope x ev ts s1).bind fun tmp s2 =>
-            .ok (match tmp with
-              | some b => aset key b res1
-              | none => res1) s2
-        | none => .ok res1 s1
-      else .ok res1 s1).bind fun res2 s2 =>
-    ten sub sc cfg x ev scope rest res2 s2
+    -- if res.get(key, False) is False and trigger in self.events and not offered:
+    if (alookup key res1).getD false = false ∧ offered = false then
+      match alookup ev scope.events with
+      | some ts =>
+        (triggerNested sub sc cfg scope x ev ts s1).bind fun tmp s2 =>
+          ten sub sc cfg x ev scope rest (match tmp with
+            | some b => aset key b res1
+            | none => res1) true s2
+      | none => ten sub sc cfg x ev scope rest res1 offered s1
+    else ten sub sc cfg x ev scope rest res1 offered s1
 
 /-- `listify(state_names)` -/
 def SVal.elems : SVal → List SVal
@@ -109,35 +112,37 @@ def SVal.listify : SVal → List SVal
 /-- `has_trigger(trigger)` -/
 def NCfg.hasTrigger (cfg : NCfg) (ev : Nat) : Bool := (alookup ev cfg.events).isSome || cfg.states.hasTrigger ev
 
-/-- the loop of `_check_event_result`; an element that is itself a list goes to `get_state` as a path of joined
-names, which is never registered: ValueError (TypeError when one of its elements is again a list) -/
-def cerLoop (cfg : NCfg) (ev : Nat) : List SVal → PR Bool
+/-- the names of a state value, flattened left to right (`flat_names`: the value of a parallel state nested in a
+parallel state is a list of lists) -/
+def SVal.flat : SVal → List SPath
+  | .name p => [p]
+  | .nil => []
+  | .cons h t => h.flat ++ t.flat
+
+/-- the loop of `_check_event_result` over the flattened names -/
+def cerLoop (cfg : NCfg) (ev : Nat) : List SPath → PR Bool
   | [] => .ok false
-  | .name p :: r =>
+  | p :: r =>
     match getState cfg.root cfg.root p with
     | none => .err .valueError
     | some f =>
       if !(f.d.ignore.getD cfg.ignore) then
         (if cfg.hasTrigger ev then .err .machineError else .err .attributeError)
       else cerLoop cfg ev r
-  | v :: _ =>
-    -- a list: all elements names → never registered, ValueError; a list among them → TypeError
-    -- (`states[elem]` with an unhashable key, or `join` of the error message)
-    if v.elems.all (fun e => match e with | .name _ => true | _ => false) then .err .valueError else .err .other
 
 /-- `HierarchicalMachine._check_event_result` -/
 def checkEventResult (cfg : NCfg) (res : Option Bool) (ev : Nat) (s : NSt) : NR Bool :=
   match res with
   | some b => .ok b s
   | none =>
-    match cerLoop cfg ev (buildStateList [] s.conf).listify with
+    match cerLoop cfg ev (buildStateList [] s.conf).flat with
     | .ok b => .ok b s
     | .err e => .err e s
     | .oof => .oof
 
 /-- the `try:` part of `_trigger_event` -/
 def triggerEventBody (sub : NSub) (sc : Script) (cfg : NCfg) (x : Ctx) (ev : Nat) (s : NSt) : NR Bool :=
-  (ten sub sc cfg x ev cfg.root s.conf [] s).bind fun r s1 =>
+  (ten sub sc cfg x ev cfg.root s.conf [] false s).bind fun r s1 =>
     (checkEventResult cfg (summarize r) ev s1).bind fun b s2 => .ok b { s2 with result := some b }
 
 /-- `finally:` — finalize callbacks; their own exception is swallowed -/
@@ -150,7 +155,7 @@ def nfinalize (sub : NSub) (sc : Script) (cfg : NCfg) (x : Ctx) (s : NSt) : Opti
 /-- `HierarchicalMachine._trigger_event` (one event, processed now); returns `event_data.result` -/
 def ntriggerEvent (sub : NSub) (sc : Script) (cfg : NCfg) (x : Ctx) (ev : Nat) (s : NSt) : NR Bool :=
   let r1 : NR Bool :=
-    match triggerEventBody sub sc cfg x ev { s with result := none } with
+    match triggerEventBody sub sc cfg x ev { s with result := none, exited := [] } with
     | .ok b s' => .ok b s'
     | .err e s' =>
       match cfg.onException with
@@ -190,14 +195,15 @@ def nmachineProcess (sub : NSub) (sc : Script) (cfg : NCfg) (qmax : Nat) (ev tag
     else (ndrain sub sc cfg qmax s1).bind fun _ s' => .ok true s'
 
 /-- `model.trigger(name)` / `model.<event>()`: allocates the tag, logs the call and its outcome; the caller's
-`event_data` (here: `result`) is its own object and is unaffected by the call -/
+`event_data` (here: `result`, `exited`) is its own object and is unaffected by the call -/
 def napiTrigger (sub : NSub) (sc : Script) (cfg : NCfg) (qmax : Nat) (ev : Nat) (s : NSt) : NR Bool :=
   let tag := s.nextTag
   let saved := s.result
+  let savedX := s.exited
   let s1 := (({ s with nextTag := tag + 1 }).emit (.api 0 tag 0 ev)).emitG (.api tag ev)
   match nmachineProcess sub sc cfg qmax ev tag s1 with
-  | .ok b s' => .ok b { ((s'.emit (.ret tag b)).emitG (.ret tag b)) with result := saved }
-  | .err e s' => .err e { ((s'.emit (.raised tag e)).emitG (.raised tag e)) with result := saved }
+  | .ok b s' => .ok b { ((s'.emit (.ret tag b)).emitG (.ret tag b)) with result := saved, exited := savedX }
+  | .err e s' => .err e { ((s'.emit (.raised tag e)).emitG (.raised tag e)) with result := saved, exited := savedX }
   | .oof => .oof
 
 /-- the fuelled interpreter of re-entrant commands (only `trigger` on the single model is modelled) -/
